@@ -80,6 +80,16 @@ func TestGocvReplayModifiers(t *testing.T) {
 				}
 			}
 		}
+	case strings.Contains(in.Obligation, "ChannelModifier") || strings.Contains(in.Obligation, "UpdatePreferredChannel") || strings.Contains(in.Obligation, "URNList"):
+		android, twitter := sa.Channels().Get("57f1078f-88aa-46f4-a59a-948a5739c03d"), sa.Channels().Get("8e21f093-99aa-413b-b55b-758b54308fcb")
+		for _, existing := range []string{`[]`, `["tel:+12065551212"]`, `["tel:+12065551212?channel=57f1078f-88aa-46f4-a59a-948a5739c03d"]`,
+			`["twitterid:54784326227#nyaruka", "tel:+12065551212?channel=0a5c1d66-2a0c-4b5c-9d5c-0e4f6c7a9b11"]`,
+			`["twitterid:54784326227#nyaruka", "tel:+12065551212?channel=3a05eaf5-cb1b-4246-bef1-f277419c83a7"]`,
+			`["tel:+12065551212?foo=bar", "twitterid:54784326227"]`} {
+			for _, ch := range []*flows.Channel{nil, android, twitter} {
+				cases = append(cases, tcase{"Bob", existing, []flows.Modifier{modifiers.NewChannel(ch)}})
+			}
+		}
 	case strings.Contains(in.Obligation, "LanguageModifier"):
 		cases = append(cases, tcase{"Bob", `[]`, []flows.Modifier{modifiers.NewLanguage("fra")}}, tcase{"Bob", `[]`, []flows.Modifier{modifiers.NewLanguage("")}})
 	case strings.Contains(in.Obligation, "StatusModifier"):
